@@ -1,4 +1,107 @@
 import OsloModel.Proto
+import OsloModel.Eui64
+import OsloModel.HostPort
+open Oslo Oslo.Proto
 
--- stub: replaced by the real driver of this property group
-def main : IO Unit := Oslo.Proto.serve (fun _ => "bad-request")
+/-! Line-protocol driver for C15 (EUI-64, host:port, URL helpers).  Requests:
+
+  eui    <notstr|ipv4|bad|net> <first|-> <type|bad|48|64> <value|->   -> v4:<n> | v6:<n> | ValueError | TypeError
+  macof  <4|6> <n>                                                     -> <n> | AddrFormatError
+  php    <N|hex address> <N|i:<int>|s:<hex>>                            -> ok <N|hex host> <N|port> | <error>
+  esc    <hex address>                                                 -> <0|1> <hex escaped>
+  url    <0|1 allow_fragments> <hex scheme> <netloc> <path> <query> <fragment>  -> five hex fields
+  params <hex query> <0|1 collapse> <k=v,k=v,…|->                       -> k:o:v,k:m:v|v,…  (insertion order)
+-/
+
+def showEuiErr : Eui64.Err → String
+  | .valueError => "ValueError" | .typeError => "TypeError" | .addrFormatError => "AddrFormatError"
+
+def showHpErr : HostPort.Err → String
+  | .valueError => "ValueError" | .typeError => "TypeError" | .indexError => "IndexError"
+  | .unmodelled => "unmodelled"
+
+def parsePrefix (k f : String) : Option Eui64.PrefixIn :=
+  match k, f with
+  | "notstr", "-" => some .notStr
+  | "ipv4", "-" => some .ipv4Addr
+  | "bad", "-" => some .malformed
+  | "net", f => f.toNat?.map .net
+  | _, _ => none
+
+def parseMac (k v : String) : Option Eui64.MacIn :=
+  match k, v with
+  | "type", "-" => some .wrongType
+  | "bad", "-" => some .malformed
+  | "48", v => v.toNat?.map .eui48
+  | "64", v => v.toNat?.map .eui64
+  | _, _ => none
+
+def parseOptChars (s : String) : Option (Option (List Char)) :=
+  if s = "N" then some none else (unhexChars s).map some
+
+def parseDef (s : String) : Option HostPort.DefPort :=
+  if s = "N" then some .none
+  else match s.splitOn ":" with
+    | ["i", n] => n.toInt?.map .int
+    | ["s", h] => (unhexChars h).map .str
+    | _ => none
+
+def parsePair (s : String) : Option (List Char × List Char) :=
+  match s.splitOn "=" with
+  | [k, v] => do let k ← unhexChars k; let v ← unhexChars v; pure (k, v)
+  | _ => none
+
+def parsePairs (s : String) : Option (List (List Char × List Char)) :=
+  if s = "-" then some [] else (s.splitOn ",").mapM parsePair
+
+def showPVal : HostPort.PVal → String
+  | .one v => "o:" ++ hexChars v
+  | .many vs => "m:" ++ String.intercalate "|" (vs.map hexChars)
+
+def parseBool (s : String) : Option Bool :=
+  if s = "1" then some true else if s = "0" then some false else none
+
+def handle : List String → String
+  | ["eui", pk, pf, mk, mv] =>
+    match parsePrefix pk pf, parseMac mk mv with
+    | some p, some m =>
+      match Eui64.addrByEUI64 p m with
+      | .ok (.v4 n) => s!"v4:{n}"
+      | .ok (.v6 n) => s!"v6:{n}"
+      | .error e => showEuiErr e
+    | _, _ => "bad-request"
+  | ["macof", ver, n] =>
+    match ver, n.toNat? with
+    | "4", some n => (match Eui64.macOf (.v4 n) with | .ok v => toString v | .error e => showEuiErr e)
+    | "6", some n => (match Eui64.macOf (.v6 n) with | .ok v => toString v | .error e => showEuiErr e)
+    | _, _ => "bad-request"
+  | ["php", a, d] =>
+    match parseOptChars a, parseDef d with
+    | some a, some d =>
+      match HostPort.parseHostPort a d with
+      | .ok (h, p) =>
+        let hs := match h with | none => "N" | some h => hexChars h
+        let ps := match p with | none => "N" | some p => toString p
+        s!"ok {hs} {ps}"
+      | .error e => showHpErr e
+    | _, _ => "bad-request"
+  | ["esc", a] =>
+    match unhexChars a with
+    | some a => (if HostPort.isValidIPv6 a then "1 " else "0 ") ++ hexChars (HostPort.escapeIPv6 a)
+    | none => "bad-request"
+  | ["url", af, s, n, p, q, f] =>
+    match parseBool af, unhexChars s, unhexChars n, unhexChars p, unhexChars q, unhexChars f with
+    | some af, some s, some n, some p, some q, some f =>
+      let r := HostPort.urlsplitFix af ⟨s, n, p, q, f⟩
+      String.intercalate " " ([r.scheme, r.netloc, r.path, r.query, r.fragment].map hexChars)
+    | _, _, _, _, _, _ => "bad-request"
+  | ["params", q, c, pairs] =>
+    match unhexChars q, parseBool c, parsePairs pairs with
+    | some q, some c, some pairs =>
+      let d := HostPort.params q pairs c
+      if d.isEmpty then "-"
+      else String.intercalate "," (d.map (fun kv => hexChars kv.1 ++ ":" ++ showPVal kv.2))
+    | _, _, _ => "bad-request"
+  | _ => "bad-request"
+
+def main : IO Unit := serve handle
